@@ -157,6 +157,25 @@ def check(repo, rep, tier):
                      "override/%s" % ("first" if in_loop_same else "guard"))
     if not over:
         r2.ok(loc(first_stmt), RT, "no path assigns `backend` twice", "later stages run only while backend is None; scans stop at the first hit")
+    # (2b) a scan stops importing once a backend has loaded (importing a backend module has side effects: e.g. backendgg
+    # switches the shared libsnark module to Groth16)
+    eager = None
+    for s, status, _p in outs:
+        done_in = {}
+        for e in s.events:
+            if e[0] == "import" and e[1][0] == "import_ok":
+                if e[1][1] in done_in:
+                    eager = eager or (e, s)
+                done_in.setdefault(e[1][1], e)
+            elif e[0] == "import-failed" and e[1][0] == "import_ok" and e[1][1] in done_in:
+                eager = eager or (e, s)
+    if eager:
+        e, s = eager
+        r2.violation(loc(e[2]), RT, "import attempted after a backend of the same scan had loaded, on the path {%s}" % show_path(s),
+                     "the scan does not stop at the first loadable backend: later registry modules are imported as well (their "
+                     "import-time side effects change the backend in effect)", "first/eager-import")
+    else:
+        r2.ok(loc(first_stmt), RT, "no scan imports another backend after one has loaded")
     # (3) precedence: pre-imported module, then environment, then auto-detection
     order_bad = None
     seen_kinds = set()
